@@ -1,7 +1,7 @@
 """Which jobs and extra checks decide which property (the sidecar's table of contents)."""
 import importlib
 
-JOB_MODULES = ["contracts.jobs_basic", "contracts.jobs_multi", "contracts.jobs_classes", "contracts.jobs_context", "contracts.jobs_asynctools", "contracts.jobs_core"]
+JOB_MODULES = ["contracts.jobs_basic", "contracts.jobs_multi", "contracts.jobs_classes", "contracts.jobs_context", "contracts.jobs_asynctools", "contracts.jobs_core", "contracts.jobs_lru"]
 CANARY = "contracts.jobs_canary"
 
 _cache = {}
@@ -37,6 +37,7 @@ def find_job(name):
 
 
 from pyvc import typing_pass
+from contracts import extras
 
 TB_COMMON = [
     "pyvc itself (AST interpreter, lock-step driver, cut-point/Houdini logic): ~3k lines of unverified Python",
@@ -66,10 +67,17 @@ PROPS = {
     "C08": dict(level="proof", canaries=[(CANARY, "canary:filter-yields-before-test")],
                 trusted_base=TB_COMMON + ["specification ScopeSpec/ScopedSpec (contracts/refs/ref_asynctools.py) written from the property", "nesting explored to depth 2 (an inner scope's iterator is the outer handle, whose aclose is a no-op: deeper nesting repeats the same step)"],
                 explanation="histories inside the block (next, close, closing tool, nested scope enter/exit) and both exit kinds (normal / BaseException as for cancellation): the underlying iterator's close counter is 0 after every operation inside the block, exactly 1 after leaving the outermost scope, and the handle yields nothing afterwards"),
+    "C10": dict(level="proof", canaries=[(CANARY, "canary:max-last-of-ties")], extra=[extras.callkey_partition],
+                trusted_base=TB_COMMON + ["abstract LRU view contracts/refs/ref_lru.py = functools.lru_cache (written from Lib/functools.py, validated differentially)",
+                                          "dict / OrderedDict contract of pyvc/odmodel.py (insertion order, move_to_end, popitem(last=False), lookup by key equality)",
+                                          "while the cache logic is verified, CallKey.from_call is replaced by its contract `equal call patterns <=> equal keys`; that contract is checked against functools._make_key by bounded native enumeration only (labelled bounded)"],
+                bounded_note=[{"what": "CallKey.from_call vs functools._make_key induce the same partition of call patterns", "bound": "values {1, 1.0, True, '1', (1, 2), None, 2, 'a'} in up to 2 positional and 2 keyword arguments, both keyword orders, typed in {False, True}: native enumeration (bounded stand-in, not counted as discharged)"},
+                              {"what": "bound methods / classmethods / staticmethods", "bound": "LRUAsyncBoundCallable only prepends __self__; covered by the native bounded run in contracts/validate_refs.py, not by obligations"}],
+                explanation="data structure against abstract view: every operation (awaited call incl. failing calls, cache_info, cache_parameters, cache_clear, cache_discard) of Uncached/Memoized/CachedLRUAsyncCallable and of the lru_cache front end refines the abstract LRU view from an arbitrary state of each shape (consumer loop = cut point, so histories are unbounded; maxsize symbolic; three symbolic call patterns)"),
     "C13": dict(level="proof", canaries=[(CANARY, "canary:filter-yields-before-test")],
                 trusted_base=TB_COMMON + ["reference = contextlib._AsyncGeneratorContextManager of the installed CPython, extracted mechanically on demand (tools/extract_refs.py, drift-checked on every run) and rendered synchronous by fixed textual rules",
                                           "async-generator protocol A3: the generator's answers to anext/athrow/aclose range over {yield, stop, raise the same object, raise a new exception (same or other class), RuntimeError caused by the thrown exception}; a Stop(Async)Iteration never leaves a generator as such (PEP 479/525)"],
-                extra_names=["drift"],
+                extra=[extras.refs_drift],
                 explanation="loop-free, hence complete case analysis: __aenter__/__aexit__ of the real class against the extracted CPython methods over every abstract generator answer, for the 8 block outcomes; GeneratorExit rows specified from the property (closed, same object propagates)"),
     "C14": dict(level="proof", canaries=[(CANARY, "canary:filter-yields-before-test")],
                 trusted_base=TB_COMMON + ["specification contracts/refs/ref_exitstack.py = fold of the with-statement semantics (language reference 8.5) over the registered exits; cross-checked natively against contextlib.AsyncExitStack up to a bound",
